@@ -1,6 +1,7 @@
 // Small big-natural arithmetic and an exact decimal -> binary64 correct-rounding judge.
 // Independent of strtod: integer arithmetic only (DESIGN section 4).
 #pragma once
+#include <map>
 #include <cstdint>
 #include <cstring>
 #include <string>
@@ -303,7 +304,29 @@ inline DecNum parse_decimal(const std::string &t)
 
 // Is r the round-to-nearest-even binary64 of the decimal number `text`?
 // Returns 1 yes, 0 no, -1 text not a number this judge handles.
+inline int correctly_rounded_uncached(const std::string &text, double r);
+// memo: harnesses judge the same (text, result) pair once per injected variant of a document
 inline int correctly_rounded(const std::string &text, double r)
+{
+	if (text.size() < 40)
+		return correctly_rounded_uncached(text, r);
+	static std::map<std::pair<std::string, uint64_t>, int> memo;
+	static size_t memo_bytes = 0;
+	auto key = std::make_pair(text, dbl_bits(r));
+	auto it = memo.find(key);
+	if (it != memo.end())
+		return it->second;
+	int v = correctly_rounded_uncached(text, r);
+	if (memo_bytes > (8u << 20))
+	{
+		memo.clear();
+		memo_bytes = 0;
+	}
+	memo_bytes += text.size() + 64;
+	memo.emplace(std::move(key), v);
+	return v;
+}
+inline int correctly_rounded_uncached(const std::string &text, double r)
 {
 	DecNum dn = parse_decimal(text);
 	if (!dn.ok)
